@@ -38,7 +38,7 @@ import pysmt.logics as LG
 import pysmt.operators as op
 import pysmt.smtlib.commands as smtcmd
 from pysmt.environment import Environment, push_env, pop_env
-from pysmt.exceptions import NoLogicAvailableError
+from pysmt.exceptions import NoLogicAvailableError, NoSolverAvailableError
 from pysmt.oracles import get_logic as detect_logic
 from pysmt.smtlib.script import smtlibscript_from_formula
 
@@ -992,10 +992,117 @@ _ABBR = {"bit_vectors": "bv", "integer_arithmetic": "int", "real_arithmetic": "r
          "quantifiers": "q", "nonlinear": "nl", "general_linear:int": "gli", "general_linear:real": "glr"}
 
 
+class _HandoffStub(object):
+    """stands in for every kind of solver the factory can create; records the logic it is created for and
+    every formula it is handed"""
+    LOGICS = list(LG.PYSMT_LOGICS)
+    log = []
+
+    def __init__(self, environment, logic, **options):
+        self.logic = logic
+        _HandoffStub.log.append([logic, []])
+
+    def _got(self, *fs):
+        _HandoffStub.log[-1][1].extend(fs)
+
+    def __enter__(self):
+        return self
+
+    def __exit__(self, *a):
+        return False
+
+    def exit(self):
+        pass
+
+    def is_sat(self, f):
+        self._got(f)
+        return True
+
+    is_valid = is_unsat = is_sat
+
+    def add_assertion(self, f, named=None):
+        self._got(f)
+
+    def solve(self, assumptions=None):
+        return False
+
+    def get_model(self):
+        return None
+
+    def get_unsat_core(self):
+        return set()
+
+    def eliminate_quantifiers(self, f):
+        self._got(f)
+        return f
+
+    def binary_interpolant(self, a, b):
+        self._got(a, b)
+        return None
+
+    def sequence_interpolant(self, fs):
+        self._got(*fs)
+        return None
+
+
+def make_handoff(env, ex):
+    """the factory shortcuts detect a logic themselves when none is given: whatever solver object they create
+    must be created for a logic that enables everything in the formulas it is then handed"""
+    fac = env.factory
+    for attr in ("_all_solvers", "_all_unsat_core_solvers", "_all_qelims", "_all_interpolators"):
+        setattr(fac, attr, {"stub": _HandoffStub})
+    m = env.formula_manager
+    hq = m.Symbol("hq", mk_type(env, INT))
+    hb = m.Symbol("hb", mk_type(env, ("BV", 4)))
+    partners = [("quantified-int", m.Exists([hq], m.Equals(m.Times(hq, m.Int(2)), m.Int(6)))),
+                ("bv", m.Equals(hb, m.BV(1, 4))),
+                ("bool", m.Symbol("hp"))]
+    one = [("is_sat", fac.is_sat), ("is_valid", fac.is_valid), ("is_unsat", fac.is_unsat), ("get_model", fac.get_model),
+           ("get_implicant", fac.get_implicant), ("qelim", fac.qelim)]
+
+    def run(label, call):
+        del _HandoffStub.log[:]
+        try:
+            call()
+        except (NoLogicAvailableError, NoSolverAvailableError) as e:
+            return "handoff:%s:refused" % label.split("[")[0], None
+        except Exception as e:
+            return "handoff:%s:raised:%s" % (label.split("[")[0], type(e).__name__), None
+        for L, fs in _HandoffStub.log:
+            need = set()
+            for g in fs:
+                need |= set(ex.info(g)[1])
+            miss = sorted(x for x in need if not logic_enables(L, x))
+            if miss:
+                return "handoff:%s:created" % label.split("[")[0], (
+                    "handoff:" + label.split("[")[0], miss,
+                    "factory.%s created its solver for logic %s, which does not enable %s of the formulas handed to it"
+                    % (label, L.name, miss))
+        return "handoff:%s:created" % label.split("[")[0], None
+
+    def verdict(f):
+        labels, fail = [], None
+        for nm, fn in one:
+            lab, bad = run(nm, lambda: fn(f, solver_name="stub"))
+            labels.append(lab)
+            fail = fail or bad
+        for pn, g in partners:
+            for order, cl in (("f,g", [f, g]), ("g,f", [g, f])):
+                for nm, call in (("get_unsat_core[%s:%s]" % (pn, order), lambda: fac.get_unsat_core(cl, solver_name="stub")),
+                                 ("sequence_interpolant[%s:%s]" % (pn, order), lambda: fac.sequence_interpolant(cl, solver_name="stub")),
+                                 ("binary_interpolant[%s:%s]" % (pn, order), lambda: fac.binary_interpolant(cl[0], cl[1], solver_name="stub"))):
+                    lab, bad = run(nm, call)
+                    labels.append(lab)
+                    fail = fail or bad
+        return fail, labels
+    return verdict
+
+
 def make(env, profile, res, part):
     ex = Extractor()
     verdict = make_verdict(env, ex)
     other = {}
+    handoff = make_handoff(env, ex) if part.get("handoff") else None
 
     def check(f):
         try:
@@ -1011,6 +1118,22 @@ def make(env, profile, res, part):
             res.count("nontrivial")
             if len(res.samples) < 2:
                 res.sample({"part": part["name"], "term": termio.short(termio.dump(f)), "needs": sorted(need)}, limit=2)
+        if fail is None and handoff is not None and f.get_type().is_bool_type():
+            try:
+                hfail, hlabels = handoff(f)
+            except OracleUnsupported:
+                hfail, hlabels = None, []
+            for l in set(hlabels):
+                res.outcome(l)
+            res.count("handoff_terms")
+            if hfail is not None:
+                sub, r = minimal_failing(f, lambda g: handoff(g)[0] if g.get_type().is_bool_type() else None)
+                if r is None:
+                    sub, r = f, hfail
+                _viol(res, part["name"], "%s:%s" % (r[0], "+".join(_ABBR.get(x, x) for x in r[1])),
+                      "%s: %s: %s" % (part["name"], termio.short(termio.dump(sub)), r[2]),
+                      {"term": termio.dump(sub), "found_in": termio.dump(f), "handoff": True})
+                return
         if fail is None:
             # the copy in a companion environment that is never pushed, analysed by that environment's
             # oracles (which reach into the environment on top of the stack for free variables)
@@ -1169,10 +1292,10 @@ def parts(ctx):
         A(dict(name="arr-%s-d2" % nm, profile=(lambda i, e_: lambda e: P.arr_profile(e, i, e_))(i, e_),
                depth=2, shards=8, mid_ops=_not_names("arrite"), top_ops=_not_names("store") if q else None,
                max_new=1))
-    A(dict(name="mixed-d2", profile=lambda e: P.mixed_profile(e, quant=True), depth=2, shards=32, max_new=1))
+    A(dict(name="mixed-d2", profile=lambda e: P.mixed_profile(e, quant=True), depth=2, shards=32, max_new=1, handoff=True))
     A(dict(name="uf-d2", profile=P.uf_profile, depth=2, shards=16))
-    A(dict(name="quant-d2", profile=P.quant_profile, depth=2, shards=16, max_new=1 if q else None))
-    A(dict(name="edge-d2", profile=edge_profile, depth=2, shards=32,
+    A(dict(name="quant-d2", profile=P.quant_profile, depth=2, shards=16, max_new=1 if q else None, handoff=True))
+    A(dict(name="edge-d2", profile=edge_profile, depth=2, shards=32, handoff=True,
            top_ops=_not_names("iteI", "iteS", "iteSt", "stoASI", "stoAII", "stoAB2B") if q else None,
            max_new=1 if q else 2))
     if not q:
@@ -1245,6 +1368,18 @@ def replay(rec):
                 return False, "copy of %s in an environment that is not on top of the stack: %s" % (
                     termio.short(case["term"]), fail[2])
             return True, "the logic detected for the copy of %s in another environment covers it" % termio.short(case["term"])
+        finally:
+            pop_env()
+    if case.get("handoff"):
+        env = Environment()
+        push_env(env)
+        try:
+            ex = Extractor()
+            f = termio.build(env, case["term"])
+            fail = make_handoff(env, ex)(f)[0]
+            if fail is not None:
+                return False, "%s: %s" % (termio.short(case["term"]), fail[2])
+            return True, "every factory shortcut creates its solver for a logic that covers %s" % termio.short(case["term"])
         finally:
             pop_env()
     if kind in ("theory-pair", "theory-triple"):
